@@ -16,7 +16,12 @@ E2: bounded exhaustive input families, every input on a fresh xtuml.ModelLoader:
      `build_metamodel` half of the statement is exercised exhaustively too);
 
 plus E1-style loader histories: every sequence of up to H `input` calls over a
-pool of three accepted and three rejected texts, with every placement of builds.
+pool of three accepted and three rejected texts, with every placement of builds,
+and the same over a second pool of multi-line texts (errors on lines 5-6, build
+messages that name a line).  Every step is compared with a fresh loader that was
+fed the accepted texts only: outcome, message of the ParsingException, all
+fields of the accumulated statements (line numbers included), and the outcome
+(text or exception message) of every build.
 
 Everything the code under test executes runs in a disposable child process that
 announces each input before it starts; a child that stays silent longer than the
@@ -47,6 +52,11 @@ ASSUMPTIONS = [
     'applied to every input of every family, the pumped family (d) is where super-linear scanning shows',
     'what a successful build contains is C01/C03; here only the class of the outcome and, for histories, equality with '
     'the build of a fresh loader fed the accepted texts only',
+    '"later inputs and builds behave as if the rejected call had not happened" is read as: after any history, an input is '
+    'accepted / rejected with the same ParsingException message (it names file and line), leaves statements with the same '
+    'fields (lineno, filename included) and a build gives the same serialized text or the same exception class and message as '
+    'on a fresh loader that was fed the accepted texts of the history only',
+    'boolean literals are spelled TRUE / false / True / fALSE (flip alternatives, undeclared-class base file, statement pool)',
 ]
 
 TIME_BUDGET = 2.0          # CPU seconds one input may keep its process busy (its siblings take about 1 ms)
@@ -241,6 +251,32 @@ def history_pool(seed):
     return good + bad
 
 
+def position_pool(seed):
+    '''Three accepted and three rejected texts in which line structure matters: every rejected text fails after one or more
+    line breaks, the accepted ones carry their statements on later lines and -- depending on what else the loader holds --
+    make build_metamodel raise messages that name a line.'''
+    p = PAL_NAMES[seed % len(PAL_NAMES)]
+    A, B, Z = p['A'], p['B'], p['Z']
+    good = [
+        '-- schema\n\nCREATE TABLE %s (Id UNIQUE_ID, Nm STRING, B_Id UNIQUE_ID);\n'
+        'CREATE TABLE %s (Id UNIQUE_ID,\n  Cnt INTEGER);\n'
+        "CREATE ROP REF_ID R1 FROM MC %s (B_Id) PHRASE 'of' TO 1 %s (Id) PHRASE 'has';\n" % (A, B, A, B),
+        # with the declaration of B: '<string>:4:unable to deserialize ...'; without it the types are guessed and it builds
+        "\n\n-- late rows\nINSERT INTO %s VALUES (21, 'many');\n" % B,
+        # with the declarations: '<string>:4:R2 refers to an unknown attribute'; without them an unknown class
+        "INSERT INTO %s VALUES (5, 'five', 21)\n;\n\nCREATE ROP REF_ID R2 FROM 1C %s (Nope)\n TO 1 %s (Id);\n" % (A, A, B),
+    ]
+    bad = [
+        # illegal character on line 6, after a complete statement
+        "-- c\n\n\nINSERT INTO %s VALUES (1, 'x', 2);\n\n  $\n" % A,
+        # illegal token on line 5, after a complete statement that spans two lines
+        'INSERT INTO %s VALUES (1,\n2);\nINSERT INTO %s VALUES (\n\n;' % (B, B),
+        # illegal cardinality (raised by a grammar action) on line 6
+        '\nCREATE TABLE %s (Id INTEGER);\n\n\nCREATE ROP REF_ID R7 FROM\n 2 %s (B_Id) TO 1 %s (Id);\n' % (Z, A, B),
+    ]
+    return good + bad
+
+
 _REF_CACHE = {}
 
 
@@ -265,9 +301,10 @@ def build_outcome(ctx, loader, case, what):
 
 
 def reference_input(pool, accepted, idx):
-    '''Whether pool[idx] is accepted by a fresh loader that was fed the accepted texts only (no rejected call ever).'''
+    '''What a fresh loader that was fed the accepted texts only (no rejected call ever) does with pool[idx]:
+    (accepted?, message of its ParsingException, snapshot of its statements afterwards); None if it fails otherwise.'''
     import xtuml
-    key = ('input', tuple(accepted), idx)
+    key = ('input', tuple(pool), tuple(accepted), idx)
     if key not in _REF_CACHE:
         ref = xtuml.ModelLoader()
         try:
@@ -275,15 +312,30 @@ def reference_input(pool, accepted, idx):
                 ref.input(pool[i])
             try:
                 ref.input(pool[idx])
-                res = True
-            except xtuml.ParsingException:
-                res = False
+                res = (True, None, snap(ref))
+            except xtuml.ParsingException as e:
+                res = (False, str(e), None)
         except core.Timeout:
             raise
         except BaseException:
             res = None                     # reported where it happens in the history itself
         _REF_CACHE[key] = res
     return _REF_CACHE[key]
+
+
+def first_snap_diff(exp, got):
+    '''Where two statement snapshots differ: (index, statement class, field, expected, observed).'''
+    for i in range(max(len(exp), len(got))):
+        if i >= len(exp) or i >= len(got):
+            return 'statement %d: %s vs %s' % (i, exp[i][0] if i < len(exp) else '<none>', got[i][0] if i < len(got) else '<none>')
+        if exp[i] != got[i]:
+            if exp[i][0] != got[i][0]:
+                return 'statement %d: %s vs %s' % (i, exp[i][0], got[i][0])
+            de, dg = dict(exp[i][1]), dict(got[i][1])
+            for k in sorted(set(de) | set(dg)):
+                if de.get(k) != dg.get(k):
+                    return 'statement %d (%s): %s = %s, but %s in the fresh loader' % (i, exp[i][0], k, dg.get(k), de.get(k))
+    return None
 
 
 def exec_history(ctx, pool, hist, seed=0):
@@ -295,16 +347,18 @@ def exec_history(ctx, pool, hist, seed=0):
     accepted = []
     saw_reject = False
     nontrivial = False
+    before = snap(loader)
     for step, (idx, build) in enumerate(hist):
         text = pool[idx]
-        expect_ok = reference_input(pool, accepted, idx)
-        before = snap(loader)
+        exp_in = reference_input(pool, accepted, idx)
         ctx.count('input_calls')
+        msg = None
         try:
             loader.input(text)
             ok = True
-        except xtuml.ParsingException:
+        except xtuml.ParsingException as e:
             ok = False
+            msg = str(e)
         except core.Timeout:
             raise
         except BaseException as e:
@@ -313,17 +367,16 @@ def exec_history(ctx, pool, hist, seed=0):
                           'returns or raises xtuml.ParsingException', type(e).__name__,
                           unit_test=unit_test_history(case))
             return
-        if expect_ok is not None and ok != expect_ok:
+        if exp_in is not None and ok != exp_in[0]:
             ctx.violation('c12:history:input-outcome-differs', case,
                           'history %s: input #%d (pool text %d) was %s here but %s by a fresh loader fed only the accepted '
                           'texts %s before it' % (hist, step, idx, 'accepted' if ok else 'rejected',
-                                                  'accepted' if expect_ok else 'rejected', accepted),
-                          expect_ok, ok, unit_test=unit_test_history(case))
+                                                  'accepted' if exp_in[0] else 'rejected', accepted),
+                          exp_in[0], ok, unit_test=unit_test_history(case))
             return
         ctx.count('input_outcomes_compared')
+        after = snap(loader)
         if not ok:
-            saw_reject = True
-            after = snap(loader)
             ctx.count('rejections_compared')
             if after != before:
                 ctx.violation('c12:statements-changed-after-rejection', case,
@@ -331,15 +384,38 @@ def exec_history(ctx, pool, hist, seed=0):
                               (hist, step, len(before), len(after)), [s[0] for s in before], [s[0] for s in after],
                               unit_test=unit_test_history(case))
                 return
+            if exp_in is not None:
+                # the message names the position of the error: it is what a caller sees of a later rejected input
+                ctx.count('rejection_messages_compared')
+                if saw_reject:
+                    ctx.count('rejection_messages_compared_after_a_rejection')
+                if msg != exp_in[1]:
+                    ctx.violation('c12:history:later-input-differs:message', case,
+                                  'history %s: input #%d (pool text %d) is rejected with %r, but with %r by a fresh loader fed only '
+                                  'the accepted texts %s before it' % (hist, step, idx, msg, exp_in[1], accepted),
+                                  exp_in[1], msg, unit_test=unit_test_history(case))
+                    return
+            saw_reject = True
         else:
             accepted.append(idx)
             if saw_reject:
                 nontrivial = True
+            if exp_in is not None:
+                # everything the loader recorded (statement fields, line numbers and file names included) is what a loader
+                # records that never saw the rejected texts
+                ctx.count('accepted_statements_compared')
+                if after != exp_in[2]:
+                    ctx.violation('c12:history:later-input-differs:statements', case,
+                                  'history %s: after input #%d (pool text %d) the loader holds other statements than a fresh loader '
+                                  'fed only the accepted texts %s: %s' % (hist, step, idx, accepted, first_snap_diff(exp_in[2], after)),
+                                  [s[0] for s in exp_in[2]], [s[0] for s in after], unit_test=unit_test_history(case))
+                    return
+        before = after
         if build:
             got = build_outcome(ctx, loader, case, 'history %s, build after input #%d' % (hist, step))
             if got is None:
                 return
-            key = tuple(accepted)
+            key = (tuple(pool), tuple(accepted))
             if key not in _REF_CACHE:
                 ref = xtuml.ModelLoader()
                 for i in accepted:
@@ -349,10 +425,15 @@ def exec_history(ctx, pool, hist, seed=0):
                                                 'fresh loader fed %s' % (accepted,))
             exp = _REF_CACHE[key]
             ctx.count('builds_compared')
+            if got[0] != 'ok' and saw_reject:
+                ctx.count('build_messages_compared_after_a_rejection')
             if exp is not None and got != exp:
-                ctx.violation('c12:history:build-differs', case,
+                what = 'message' if (got[0] == exp[0] != 'ok') else 'outcome'
+                ctx.violation('c12:history:build-differs' + (':message' if what == 'message' else ''), case,
                               'history %s: the build after input #%d differs from the build of a fresh loader fed only '
-                              'the accepted texts %s' % (hist, step, accepted), exp, got,
+                              'the accepted texts %s%s' % (hist, step, accepted,
+                                                           ': it raises %r, the fresh loader %r' % (got[1], exp[1])
+                                                           if what == 'message' else ''), exp, got,
                               unit_test=unit_test_history(case))
                 return
             ctx.distinct('outcomes', ('history-build', got[0]))
@@ -367,8 +448,13 @@ def unit_test_history(case):
         if build:
             lines.append('m = l.build_metamodel(xtuml.IntegerGenerator())')
     lines += ['ref = xtuml.ModelLoader()', 'for i in good: ref.input(POOL[i])',
-              'assert xtuml.serialize(l.build_metamodel(xtuml.IntegerGenerator())) == '
-              'xtuml.serialize(ref.build_metamodel(xtuml.IntegerGenerator()))']
+              '# the loader behaves like one that never saw the rejected texts: same statements at the same positions,',
+              '# same messages for later rejected inputs, same build',
+              'assert [(type(s).__name__, s.lineno) for s in l.statements] == [(type(s).__name__, s.lineno) for s in ref.statements]',
+              'def build(x):',
+              '    try: return xtuml.serialize(x.build_metamodel(xtuml.IntegerGenerator()))',
+              '    except (xtuml.ParsingException, xtuml.MetaException) as e: return str(e)',
+              'assert build(l) == build(ref)']
     return '\n'.join(lines)
 
 
@@ -556,7 +642,7 @@ def base_tokens(cfg_dev, seed):
     elif ex == 'undeclared':
         z_attrs = [('a', 'INTEGER'), ('b', 'STRING'), ('c', 'REAL'), ('d', 'BOOLEAN'), ('e', 'UNIQUE_ID')]
         inserts.append(insert_stmt(cfg, pal['Z'], z_attrs, ['1', "'a'", '2.5', 'TRUE', UUID % 7], 'positional'))
-        inserts.append(insert_stmt(cfg, pal['Y'], z_attrs, ['-1', "'b'", '-2.5', 'false', UUID % 8], 'named'))
+        inserts.append(insert_stmt(cfg, pal['Y'], z_attrs, ['-1', "'b'", '-2.5', 'False', UUID % 8], 'named'))
     elif ex == 'reflexive':
         n_attrs = [(a_id, types[0]), ('Next_' + a_id, types[0])]
         tables.append(table_stmt(cfg, pal['N'], n_attrs))
@@ -640,6 +726,8 @@ def flip_alternatives(tag, negative):
     '''Replacement token lists, one per other lexical class.'''
     alts = [('s', [("'s'", 's')]), ('n', [('7', 'n')]), ('f', [('2.5', 'f')]), ('g', [(UUID % 77, 'g')]),
             ('g2', [('"zz"', 'g')]), ('b', [('TRUE', 'b')]), ('b2', [('false', 'b')]),
+            # the reserved words are recognised in any letter case: the mixed-case spellings are values too
+            ('b3', [('True', 'b')]), ('b4', [('fALSE', 'b')]),
             ('-n', [('-', 'm'), ('7', 'n')]), ('-f', [('-', 'm'), ('2.5', 'f')])]
     own = ('-' if negative else '') + tag
     return [(name, toks) for name, toks in alts if name != own]
@@ -738,6 +826,9 @@ def statement_pool(seed):
         'CREATE UNIQUE INDEX I2 ON %s (q);' % B,
         'INSERT INTO %s (x, x) VALUES (1, 2);' % A,
         'INSERT INTO %s () VALUES (1);' % A,
+        # rows of classes that are never declared (types guessed from the first row of the class), booleans in mixed case
+        'INSERT INTO %s (x, f) VALUES (1, True);' % Z,
+        "INSERT INTO %s VALUES (fAlSe, 'a');" % p['Y'],
     ]
 
 
@@ -747,8 +838,8 @@ def statement_pool(seed):
 
 def bounds_for(tier):
     if tier == 'thorough':
-        return dict(string_len=4, token_len=4, token_len_deep=5, stmt_len=4, hist_len=4, hist_len_uniform=5)
-    return dict(string_len=3, token_len=3, token_len_deep=4, stmt_len=3, hist_len=4, hist_len_uniform=None)
+        return dict(string_len=4, token_len=4, token_len_deep=5, stmt_len=4, hist_len=4, hist_len_uniform=5, hist_len_pos=4)
+    return dict(string_len=3, token_len=3, token_len_deep=4, stmt_len=3, hist_len=4, hist_len_uniform=None, hist_len_pos=3)
 
 
 class Space(object):
@@ -766,6 +857,7 @@ class Space(object):
         self.deepset = set(self.deep)
         self.stmts = statement_pool(seed)
         self.pool = history_pool(seed)
+        self.pool2 = position_pool(seed)
         self.configs = base_configs(tier)
         self._bases = {}
 
@@ -797,6 +889,7 @@ class Space(object):
         t += pump_tasks(self.tier, self.seed)
         t += [('e0',)] + [('e', i) for i in range(len(self.stmts))]
         t += [('h', op) for op in range(12)] + [('h2', o1, o2) for o1 in range(12) for o2 in range(12)]
+        t += [('p', op) for op in range(12)]
         return t
 
     def items(self, task):
@@ -860,6 +953,11 @@ class Space(object):
                     h = [[head[0][0], every], [head[1][0], every]] + [[i, every] for i in rest]
                     h[-1][1] = 1
                     yield ('h', h)
+        elif kind == 'p':
+            # histories over the position pool (texts with line structure), every placement of builds
+            for n in range(1, self.b['hist_len_pos'] + 1):
+                for rest in itertools.product(range(12), repeat=n - 1):
+                    yield ('hp', [[o // 2, o % 2] for o in (task[1],) + rest])
         else:
             raise ValueError(task)
 
@@ -875,6 +973,9 @@ def exec_item(c, space, item):
             c.count('base_ok')
     elif item[0] == 'h':
         exec_history(c, space.pool, item[1], space.seed)
+    elif item[0] == 'hp':
+        c.count('histories_position_pool')
+        exec_history(c, space.pool2, item[1], space.seed)
     elif item[0] == 'sleep':
         # watchdog self-test: a deliberately silent child must be killed and confirmed
         n = 0
@@ -989,8 +1090,8 @@ def child_run(ctx, space, items, skip=()):
 def item_case(item, why):
     if item[0] == 't':
         return dict(kind=why, family=item[1], text=item[2])
-    if item[0] == 'h':
-        return dict(kind=why, hist=item[1])
+    if item[0] in ('h', 'hp'):
+        return dict(kind=why, hist=item[1], pool2=item[0] == 'hp')
     return dict(kind=why, item=list(item))
 
 
@@ -1016,7 +1117,7 @@ def report_slow(ctx, space, item):
             ctx.count('watchdog_selftest')
         return
     if slow == 2:
-        what = short(item[2]) if item[0] == 't' else repr(item[1])
+        what = short(item[2]) if item[0] == 't' else repr(item[1:])
         ctx.violation('c12:time', item_case(item, 'time'),
                       'loading %s kept the process busy for more than %.0f s of CPU time (twice, alone, in a fresh process)' %
                       (what, TIME_BUDGET), 'finishes within %.0f s' % TIME_BUDGET, 'killed after more than %.0f s, twice' % TIME_BUDGET,
@@ -1116,7 +1217,8 @@ def run(ctx):
     grammar_guard(ctx)
     # calibration of the history pool on fresh loaders (in a child, like everything else)
     import xtuml
-    for i, text in enumerate(space.pool):
+    for i, text in enumerate(space.pool + space.pool2):
+        i = i % len(space.pool)
         l = xtuml.ModelLoader()
         with core.time_limit(10):
             try:
@@ -1167,6 +1269,7 @@ def run(ctx):
     ctx.sample(dict(family='b', lexemes=[l for _, l in space.lex]))
     ctx.sample(dict(family='e', statements=space.stmts))
     ctx.sample(dict(family='history', pool=space.pool))
+    ctx.sample(dict(family='history (position pool)', pool=space.pool2))
 
     q = ctx.quick
     ctx.require(ctx.n('watchdog_selftest') == 1, 'the watchdog did not kill and confirm the deliberately silent child')
@@ -1192,6 +1295,14 @@ def run(ctx):
     ctx.require(ctx.n('histories_nontrivial') >= (10000 if q else 27000),
                 'too few histories with an accepted input after a rejected one (%d)' % ctx.n('histories_nontrivial'))
     ctx.require(ctx.n('builds_compared') >= (40000 if q else 70000), 'too few history builds compared')
+    ctx.require(ctx.n('histories_position_pool') >= (1800 if q else 22000),
+                'too few histories over the position pool (%d)' % ctx.n('histories_position_pool'))
+    ctx.require(ctx.n('rejection_messages_compared_after_a_rejection') >= 10000,
+                'too few rejection messages compared after an earlier rejection (%d)' % ctx.n('rejection_messages_compared_after_a_rejection'))
+    ctx.require(ctx.n('accepted_statements_compared') >= 20000,
+                'too few accepted inputs whose statements were compared (%d)' % ctx.n('accepted_statements_compared'))
+    ctx.require(ctx.n('build_messages_compared_after_a_rejection') >= 200,
+                'too few failing builds after a rejection whose message was compared (%d)' % ctx.n('build_messages_compared_after_a_rejection'))
     ctx.require(ctx.nd('outcomes') >= 40, 'too few distinct outcomes (%d)' % ctx.nd('outcomes'))
 
 
@@ -1202,7 +1313,7 @@ def replay(ctx, case):
         if 'text' in case:
             item = ('t', case.get('family', 'd'), case['text'], False)
         else:
-            item = ('h', case['hist'])
+            item = ('hp' if case.get('pool2') else 'h', case['hist'])
         report_slow(ctx, space, item)
     elif kind == 'history':
         _REF_CACHE.clear()
@@ -1237,7 +1348,12 @@ def coverage(ctx):
                     meta_exception=ctx.n('build_meta_exception')),
         histories=dict(total=ctx.n('histories'), with_accept_after_reject=ctx.n('histories_nontrivial'),
                        rejections_snapshot_compared=ctx.n('rejections_compared') - ctx.n('rejected'),
-                       builds_compared_with_fresh_loader=ctx.n('builds_compared')),
+                       builds_compared_with_fresh_loader=ctx.n('builds_compared'),
+                       over_the_position_pool=ctx.n('histories_position_pool'),
+                       rejection_messages_compared_with_fresh_loader=ctx.n('rejection_messages_compared'),
+                       of_which_after_an_earlier_rejection=ctx.n('rejection_messages_compared_after_a_rejection'),
+                       accepted_inputs_with_statements_compared=ctx.n('accepted_statements_compared'),
+                       failing_builds_after_a_rejection_message_compared=ctx.n('build_messages_compared_after_a_rejection')),
         time_oracle=dict(budget_s=TIME_BUDGET, slow_but_not_confirmed=ctx.n('slow_unconfirmed'),
                          watchdog_selftest=ctx.n('watchdog_selftest')),
         duplicates_skipped=ctx.n('duplicates_skipped'),
@@ -1247,7 +1363,7 @@ def coverage(ctx):
               ('; length %d over %d kinds (without %s)' % (b['token_len_deep'], len(space.deep), ', '.join(space.deep_drop))
                if b['token_len_deep'] else ''),
             c='%d valid base files (default + %s of the dimensions %s); per file every token deletion, duplication, adjacent '
-              'swap, 8 lexical-class flips of every value, every truncation' %
+              'swap, 10 lexical-class flips of every value (booleans in upper, lower and mixed case), every truncation' %
               (len(space.configs), 'one or two departures (cardinality pairs are combined with the phrase forms only)'
                if ctx.thorough else 'one departure', [d for d, _ in DIMS]),
             d='prefix + unit^n: %d prefixes %r, units over the alphabet of %s' %
@@ -1256,7 +1372,9 @@ def coverage(ctx):
             e='all sequences of 1..%d statements over a pool of %d well-formed statements' % (b['stmt_len'], len(space.stmts)),
             histories='all sequences of 1..%d input calls over 3 accepted + 3 rejected texts, every placement of builds' % b['hist_len'] +
                       ('; all sequences of %d input calls with a build after every input / after the last input only' %
-                       b['hist_len_uniform'] if b['hist_len_uniform'] else ''),
+                       b['hist_len_uniform'] if b['hist_len_uniform'] else '') +
+                      '; all sequences of 1..%d input calls over the position pool (3 accepted + 3 rejected multi-line texts whose '
+                      'errors lie on lines 5-6), every placement of builds' % b['hist_len_pos'],
         ),
         exhaustive=not ctx.caps_hit,
     )
